@@ -551,6 +551,14 @@ def contains(ip, container, item):
             keys = list(py.keys()) if isinstance(py, dict) else list(py)
             if isinstance(item_n, C):
                 return any((not isinstance(k, Val)) and k == item_n.py for k in keys)
+            if isinstance(py, dict) and len(py) > 8 and all(isinstance(x, Obj) and x.kind == 'func' for x in py.values()):
+                # a large constant table of functions tested with a symbolic key: the same uninterpreted membership
+                # function as TABLE.get(key) uses (the table's contents are checked by an exhaustive table lemma)
+                from .models_calls import TABLE_NAMES, used, ufun
+                name = TABLE_NAMES.get(id(py))
+                if name is not None and (kind_of(ip, item_n) == 'str' or (isinstance(item_n, S) and ctx.must(is_str(item_n.t)))):
+                    used(f'key in {name} (symbolic key): uninterpreted membership function')
+                    return ufun(f'TABLE_HAS_{name}', Str, Bool)(key_term(ip, item_n))
             conds = []
             for k in keys:
                 r = equals(ip, item_n, ctx.wrap(k))
@@ -679,6 +687,19 @@ def subscript(ip, obj, idx):
                 if not ctx.branch(inn):
                     raise_('KeyError', 'key')
                 return Obj('tableset', name=name, key=kt)
+        if isinstance(py, dict) and len(py) > 8 and all(isinstance(x, Obj) and x.kind == 'func' for x in py.values()):
+            # a large constant table of functions indexed with a symbolic key: the same uninterpreted lookup function as
+            # TABLE.get(key) uses; KeyError when the key is absent
+            from .models_calls import TABLE_NAMES, used, ufun
+            name = TABLE_NAMES.get(id(py))
+            if name is not None:
+                kt = key_term(ip, idx_n)
+                used(f'{name}[symbolic key]: uninterpreted lookup function')
+                if not ctx.branch(ufun(f'TABLE_HAS_{name}', Str, Bool)(kt)):
+                    raise_('KeyError', 'key')
+                v = ufun(f'TABLE_{name}', Str, V)(kt)
+                ctx.assume(is_func(v))
+                return S(v)
         if isinstance(py, dict):
             # symbolic key into a concrete dict
             kt = key_term(ip, idx_n)
